@@ -13,7 +13,7 @@ from .core import Check, MachineryError
 from .threadcomm import FakeMPI, ThreadWorld, run_ranks
 
 
-def run_driver_ranks(chk: Check, R, mk_system, options, block, n_blocks, name="ranks", schedule=None, timeout=240.0):
+def run_driver_ranks(chk: Check, R, mk_system, options, block, n_blocks, name="ranks", schedule=None, timeout=900.0):
     """driver.afqmc on R thread ranks.  mk_system(rank) -> sysd with proxied trial/prop (fresh objects per rank).
     returns (events, RunResult, per-rank results)"""
     from ad_afqmc import driver
